@@ -354,6 +354,12 @@ def gen_scenario(seed, force_cfg=None, profile=None, drive=None):
         cfg["defaultSpeed"] = fbits(10.0)
         if not prof["w"].get("gotoGeo") if "w" in prof else True:
             cfg["refGeo"] = [fbits(0.0), fbits(0.0), fbits(0.0)]
+    if drive["mode"] == "steps" and r2.random() < 0.2:
+        # a protocol that lets its k-th refused request escape from a timer / packet / telemetry callback, under a
+        # stepped driver that catches the exception and keeps stepping (modelled: `Sim.stepRaised`)
+        scn["escapeAt"] = r2.choice([1, 1, 2, 3])
+        scn["tolerant"] = True
+        prof["pBadDst"] = max(prof.get("pBadDst", 0.12), 0.3)
     if r2.random() < 0.25:
         scn["dispatcher"] = {"when": r2.choice(["initialize", "initialize", "timer", "telemetry"]),
                              "oneShot": r2.random() < 0.5}
